@@ -68,7 +68,11 @@ class CallMixin:
         if isinstance(base, (Const, Str, PyList, PyTuple, PyDict, AbsList, ListV, MapV)) or \
                 (isinstance(base, Sym) and (base.hint == "str" or base.op == "set")):
             # a value of a builtin type has the attributes of that type and no others
-            pts = {Str: (str,), PyList: (list,), PyTuple: (tuple,), PyDict: (dict,), AbsList: (list, tuple), ListV: (list, tuple)}.get(type(base))
+            # (the list-like values also stand for tuples and deques, the dict-like ones for the dict subclasses of collections)
+            import collections
+            seqs = (list, tuple, collections.deque)
+            pts = {Str: (str,), PyList: seqs, PyDict: (dict, collections.OrderedDict, collections.defaultdict, collections.Counter),
+                   AbsList: seqs, ListV: seqs}.get(type(base))
             if isinstance(base, Const) and type(base.v) in (str, int, float, bool, tuple, bytes, type(None), frozenset):
                 pts = (type(base.v),)
             if pts and not any(hasattr(t, attr) for t in pts):
